@@ -11,7 +11,11 @@ import Pko.Drv.HistCommon
 * stream `hist` (scenario = multi-round history, recognised by its `ops` field): `model` prints the
   trace of `ArchiveHist.observe`; `monitor` evaluates the same `ArchiveSpec.verdict` on EVERY pass of
   the implementation's trace, against the revisions the harness observed in its store right before
-  that pass (terminating revisions included). -/
+  that pass (terminating revisions included).
+
+Revisions may keep (some of) their objects in ObjectSlices (`sl`, `sm` of a revision record, see
+`Pko.Drv.HistCommon.JRev`); `cl` (cluster-scoped kinds) only selects the Go types the harness runs —
+model and specification are the same for both scopes. -/
 namespace Pko.Drv.C08
 open Lean Pko.Model.Archive Pko.Drv.HistCommon
 
